@@ -1072,6 +1072,11 @@ impl Collection {
         let mut unindexable_image_ids = BTreeSet::new();
         for intent in intents.values() {
             affected_ids.insert(intent.document_id);
+            if intent.previous.is_none() && intent.proposed.is_none() {
+                // Recorded by the removal of a document that did not decode:
+                // no image names its postings, so they are swept by id.
+                unindexable_image_ids.insert(intent.document_id);
+            }
             for candidate in [&intent.previous, &intent.proposed].into_iter().flatten() {
                 // A recorded pre/post image that no longer satisfies the
                 // current schema (e.g. after an upgrade) cannot be turned back
@@ -3367,11 +3372,14 @@ impl Collection {
             self.record_mutation_intent(id, Some(doc), None).await?;
         }
         if undecodable {
-            // No pre-image intent can be recorded (the image would not
-            // decode on replay either) and a purge has no value-keyed
-            // rollback; a crash or delete failure below leaves the document
-            // object present but unindexed, and re-running `remove`
-            // completes the deletion.
+            // No pre-image can be recorded (the image would not decode on
+            // replay either), so the intent carries the id alone: replay
+            // sweeps the id out of every index and, when the object is gone,
+            // completes the removal in the bitmap. A purge has no
+            // value-keyed rollback; a crash or delete failure below leaves
+            // the document object present but unindexed, and re-running
+            // `remove` completes the deletion.
+            self.record_mutation_intent(id, None, None).await?;
             self.purge_dead_ids_from_indexes(&BTreeSet::from([id]), now_ms);
         }
 
